@@ -182,7 +182,9 @@ DUMMY = {"op": "union", "a": {"name": "x", "kind": "i", "labels": []}, "b": {"na
 
 class C14(Prop):
     id = "C14"
-    theorems = ["labelToInt_intCast", "ixToRaw_rawToIx", "dsTake_perdim_commutes", "fullslice_both_modes", "DSV.setItem_shared", "DSV.takeAxisPosDs_spec", "DSV.takeAxisPosDs_ok", "DSV.sortAxisDs_spec", "DSV.reindexAxisDs_spec", "DSV.takeDs_spec", "DSV.takeDs_sameData", "DSV.firstDraft_counterexample"]
+    theorems = ["labelToInt_intCast", "ixToRaw_rawToIx", "dsTake_perdim_commutes", "fullslice_both_modes", "DSV.setItem_shared", "DSV.takeAxisPosDs_spec", "DSV.takeAxisPosDs_ok", "DSV.sortAxisDs_spec", "DSV.reindexAxisDs_spec", "DSV.takeDs_spec", "DSV.takeDs_sameData", "DSV.firstDraft_counterexample",
+                "DSV.mapVarsDs_spec", "DSV.unaryOpDs_spec", "DSV.rbinaryOpDs_scalar_spec", "DSV.rbinaryOpDs_other", "DSV.rbinaryOpDs_not_binaryOpDs",
+                "DSV.stackDsA_noalign", "DSV.concatenateDsA_noalign", "DSV.stackDsA_spec"]
     rule = ("Datasets of 1-4 variables whose dimension sets overlap partially (some variables lack the operated dimension, "
             "some are 0-d), int/float/str labels in any order, variables and axes carrying metadata; take / .ix / .loc / .sel / "
             ".isel / .nloc with scalar, list, mask and slice indices given as dict, keyword, axis= or tuple, names=, tol=, "
@@ -196,7 +198,11 @@ class C14(Prop):
             "DimArray operation on that variable (values, dims, labels, variable and axis metadata, dtype kinds), and checked "
             "for the shared-axes rule and the dataset-level metadata; the Dataset operation fails exactly when one of the "
             "per-variable operations does. Non-trivial = at least two variables with different dimension sets; distinct = "
-            "canonical JSON")
+            "canonical JSON. Lean tie (model compared): besides the round-5 forms, the unary minus (`DSV.unaryOpDs`), the "
+            "reflected non-commutative operators with a scalar on the left (`DSV.rbinaryOpDs`: the scalar is the LEFT argument), "
+            "stack_ds / concatenate_ds with align=True and join= / sort= (`DSV.stackDsA` / `DSV.concatenateDsA`: the Datasets are "
+            "aligned with `DSV.alignDs` = Dataset.reindex_axis onto the common axes; the value kind of the joined variables is "
+            "NumPy's promotion and is not compared)")
     assumptions = ["the per-variable DimArray operations are the subject of C01 C02 C04 C07 C08 C12 C17 C18"]
 
     def mirrors(self):
@@ -712,15 +718,14 @@ class C14(Prop):
         if op == "arith":
             # `DSV.binaryOpDs` mirrors Dataset._binary_op: Dataset op Dataset, Dataset op scalar (also spelled `ds op= x`,
             # and `3 + ds` / `3 * ds`, which OpMixin turns into `ds + 3` / `ds * 3`); the reflected operators that do
-            # not commute (Dataset._rbinary_op) and the unary minus (_unary_op) have no mirror
-            if c["how"] == "neg" or (c["how"] == "rscalar" and c["operator"] not in ("add", "mul")):
-                return True
+            # not commute (`3 - ds`: Dataset._rbinary_op) are mirrored by `DSV.rbinaryOpDs`, the unary minus (_unary_op) by
+            # `DSV.unaryOpDs` (driver extension ExtC14Ops)
+            pass
         if op == "like" and (c["fn"] != "reindex_like" or not (c.get("fill") is None or isinstance(c["fill"], float))):
             # `DSV.reindexLikeDs` mirrors reindex_like with a float fill (NaN by default); interp_like is compared with its mirror in C18 (where labels and values are dyadic so that every float operation is exact)
             return True
-        if op in ("stack_ds", "concatenate_ds") and c.get("align"):
-            # `DSV.stackDs` / `DSV.concatenateDs` mirror align=False
-            return True
+        # (`DSV.stackDs` / `DSV.concatenateDs` mirror align=False, `DSV.stackDsA` / `DSV.concatenateDsA` align=True with
+        # join= / sort=: the Datasets are aligned with `DSV.alignDs`, i.e. `Dataset.reindex_axis` onto the common axes)
         return False
 
     def lean_ds(self, dd, toks):
@@ -770,13 +775,20 @@ class C14(Prop):
             r["newkind"] = "f"
         elif op == "arith":
             r["operand"] = "ds" if len(dss) == 2 else "scalar"
+            if c["how"] == "neg":
+                r["fn"] = "neg"            # `DSV.unaryOpDs`
+            elif c["how"] == "rscalar" and c["operator"] not in ("add", "mul"):
+                r["fn"] = "rarith"         # `DSV.rbinaryOpDs`: the scalar is the left argument of the function
         elif op == "stack_ds":
             r["stackaxis"] = "stk"
             if c["keys"] is None and c.get("container") != "dict":
                 r["labels"], r["keykind"] = [["n", i, 1] for i in range(c["n"])], "i"
             else:
                 r["labels"], r["keykind"] = [["s", "k%d" % i] for i in range(c["n"])], "O"
-        elif op == "concatenate_ds":
+        if op in ("stack_ds", "concatenate_ds") and c.get("align"):
+            r["fn"] = op + "_a"
+            r["align"], r["sort"], r["join"] = True, bool(c.get("sort")), c.get("join") or "outer"
+        if op == "concatenate_ds":
             by = c.get("by", "name")
             # (the position is taken in the first Dataset, as the implementation side of the case does)
             r["axis"] = None if by == "default" else (["name", c["dim"]] if by == "name" else ["pos", ds_dims(c["ds"]).index(c["dim"])])
@@ -804,8 +816,13 @@ class C14(Prop):
                 with np.errstate(all="ignore"):
                     return ufunc(x, y)
             kw["op"] = apply
-            if c["how"] in ("scalar", "iscalar", "rscalar"):
+            if c["how"] in ("scalar", "iscalar"):
                 kw["rhs"] = np.asarray(2 if c["operator"] == "pow" else 3)
+            elif c["how"] == "rscalar":
+                kw["rhs"] = np.asarray(3)       # (`3 op ds`, also for pow)
+            elif c["how"] == "neg":
+                # the driver writes the unary function of a cell `c` as op(c, c)
+                kw["op"] = lambda x, _y: np.negative(x)
         return core.CellEnv(inputs, **kw)
 
     def lean_vs_impl(self, c, io, ans):
@@ -846,7 +863,9 @@ class C14(Prop):
                 # new ones (the result type of a NumPy reduction / ufunc is NumPy's business, not modelled)
                 if [a["kind"] for a in got["axes"] if a["labels"]] != [a["kind"] for a in lv["axes"] if a["labels"]]:
                     bad.append("lean.var:%s:label_kind" % k)
-                if c["op"] not in ("reduce", "arith") and got["values"] and got["vkind"] != lv["vkind"]:
+                # (nor that of `np.array` / `np.concatenate` of variables that the alignment filled with NaN or not)
+                joined_aligned = c["op"] in ("stack_ds", "concatenate_ds") and c.get("align")
+                if c["op"] not in ("reduce", "arith") and not joined_aligned and got["values"] and got["vkind"] != lv["vkind"]:
                     bad.append("lean.var:%s:kind" % k)
         return bad
 
